@@ -64,8 +64,8 @@ def run(ctx):
     expect = 0
     for module, cfg in law_runs:
         r = rc.tlc_ok(ctx, module, cfg, coverage=(not quick and cfg.startswith(("MC_laws_full", "MC_plaws_part_full"))))
-        if r.coverage_zero:
-            raise verif.Inconclusive("%s: actions with zero coverage: %s" % (cfg, r.coverage_zero))
+        if rc.zero_coverage(r):
+            raise verif.Inconclusive("%s: actions with zero coverage: %s" % (cfg, rc.zero_coverage(r)))
         if r.emitted:
             case_files.append(r.out_path)
             expect += r.emitted
